@@ -756,6 +756,10 @@ class FuelHandler:
 
         These blocks in effect are not moved at all.
         """
+        if assembly1 is assembly2:
+            # an assembly swapped with itself keeps all of its blocks
+            return
+
         # grab stationary block flags
         sBFList = self.r.core.stationaryBlockFlagsList
 
